@@ -63,8 +63,8 @@ Proof. intros Hn. pose proof (mod3_range n) as Hm. unfold bumped, put_padding.
 Section Shared.
 Variables (m : mode) (rv : Z -> Z -> Z).
 
-Lemma status_not_admin l pos len : status_of l pos len <> AdminAction.
-Proof. unfold status_of. destruct (_ <=? _); [discriminate|]. destruct (l_connected l); discriminate. Qed.
+Lemma status_refusal l pos len : refusal (status_of l pos len) = true.
+Proof. unfold status_of. destruct (_ <=? _); [reflexivity|]. destruct (l_connected l); reflexivity. Qed.
 
 Lemma shared_offer n off s msg : pub_inv n off s -> n < two31 - 1 -> off <= l_tlen (ps_log s) ->
   zlen msg <= 1073741824 -> l_mtu (ps_log s) mod 32 = 0 ->
@@ -76,9 +76,9 @@ Proof. intros Hinv Hlast Hofft Hlen Hm32.
   pose proof (pub_offer_cases m rv s n off Hinv msg Hlen) as T. cbn [pub_step].
   destruct (pub_offer m rv s msg) as [s' r] eqn:Eres.
   inversion T as [Hc | Hc Hl | Hc Hl Htoo | s2 t' Htoo Hc Hl Hfit Hlog Hc' | s2 Htoo Hc Hl Hfit Hn' Hlog Hc' Hclm | s2 Htoo Hc Hl Hfit Hn' Hlog Hc' Hclm]; subst s' r.
-  - apply AE_refuse. discriminate.
-  - apply AE_refuse. apply status_not_admin.
-  - apply AE_refuse. discriminate.
+  - apply AE_refuse. reflexivity.
+  - apply AE_refuse. apply status_refusal.
+  - apply AE_refuse. reflexivity.
   - (* accepted *)
     assert (Hreq : 0 < op_required (ps_log s) (Offer msg) <= l_tlen (ps_log s) / 2).
     { apply (required_ok s n off); auto. }
@@ -128,11 +128,11 @@ Proof. intros Hinv Hlast Hofft Hlen.
   pose proof (mod3_range n) as Hm3r. pose proof (inv_tid_i32 s n) as Htid.
   pose proof (pub_claim_cases m s n off Hinv len Hlen) as T. cbn [pub_step].
   destruct (max_payload_length (ps_log s) <? len) eqn:Emp.
-  { rewrite T. apply AE_refuse. discriminate. }
+  { rewrite T. apply AE_refuse. reflexivity. }
   destruct (pub_claim m s len) as [s' r] eqn:Eres.
   inversion T as [Hc | Hc Hl | Hc Hl Htoo | s2 t' Htoo Hc Hl Hfit Hlog Hc' | s2 Htoo Hc Hl Hfit Hn' Hlog Hc' Hclm | s2 Htoo Hc Hl Hfit Hn' Hlog Hc' Hclm]; subst s' r.
-  - apply AE_refuse. discriminate.
-  - apply AE_refuse. apply status_not_admin.
+  - apply AE_refuse. reflexivity.
+  - apply AE_refuse. apply status_refusal.
   - discriminate.
   - (* accepted *)
     assert (Hreq : 0 < op_required (ps_log s) (Claim len) <= l_tlen (ps_log s) / 2).
